@@ -605,6 +605,7 @@ mod imp {
                     Token::IntLit(v) => json!({"kind": "IntLit", "value": v.to_string(), "span": span, "more": rest}),
                     Token::UIntLit(v) => json!({"kind": "UIntLit", "value": v.to_string(), "span": span, "more": rest}),
                     Token::FloatLit(v) => json!({"kind": "FloatLit", "bits": v.to_bits().to_string(), "span": span, "more": rest}),
+                    Token::ByteStringLit(v) => json!({"kind": "ByteStringLit", "bytes": v.as_slice().to_vec(), "span": span, "more": rest}),
                     Token::StringLit(v) => json!({"kind": "StringLit", "chars": v.chars().map(|c| c as u32).collect::<Vec<u32>>(), "span": span, "more": rest}),
                     other => json!({"kind": format!("{:?}", other), "span": span, "more": rest}),
                 }
